@@ -1,5 +1,5 @@
 """Check specifications of the concurrent properties."""
-from . import conc, queue
+from . import conc, queue, adder
 
 T1_TRUST = [
     "cooperative scheduler + import-rewritten scratch copy of /repo (tools/mkinst.py, shim/): sync/atomic and sync calls are the scheduling points; "
@@ -14,6 +14,7 @@ def spec(prop, title, driver, gen, model_note, relevant=None, partial=(), truste
                 replay=lambda data, d=driver, p=prop: conc.replay(p, data, d),
                 replay_how="each entry: scenario (threads x ops, prefill) + scheduler choice list; `./check %s --replay <file>` re-executes it on the current tree" % prop)
 
+AMODEL = "Adder/StripedModel.v (striped64.go+jdkAdder.go and, with the f64 flag, stripedF64.go+jdkF64Adder.go) and Adder/SimpleModel.v (randomCellAdder, atomicAdder, atomicF64Adder, mutexAdder)"
 QMODEL = "Queue/JdkModel.v (hand-written step machine of jdkLinkedQueue.go + node.go, one step per sync/atomic access) and Queue/MutexModel.v (mutexLinkedQueue.go)"
 
 SPECS = {
@@ -25,4 +26,10 @@ SPECS = {
                 relevant=r"iterator|removed|lost|left the queue|never offered|did not complete|iteration"),
     "C15": spec("C15", "Plain FIFO list sequentially and at quiescence", "queue", queue.gen_c15, QMODEL,
                 relevant=r"sequential script|quiescen|iteration|lost|left the queue|did not complete"),
+    "C02": spec("C02", "Adders never lose, duplicate or tear an update", "adder", adder.gen_c02, AMODEL,
+                relevant=r"exact total|lost|did not complete"),
+    "C09": spec("C09", "A concurrent Sum sees every finished update and only whole updates", "adder", adder.gen_c09, AMODEL,
+                relevant=r"not the total of any set|non-integral|did not complete"),
+    "C16": spec("C16", "All adder variants agree with a plain number for Store/Reset/SumAndReset", "adder", adder.gen_c16, AMODEL,
+                relevant=r"single number|did not complete"),
 }
